@@ -52,6 +52,9 @@ pub struct Case {
     /// positions (as 16-bit fractions of the stream) at which reads are interleaved
     pub reads: Vec<u16>,
     pub qs: Vec<f64>,
+    /// additionally read after every `read_every` inserts (0 = no periodic reads)
+    #[serde(default)]
+    pub read_every: u16,
 }
 
 pub fn data(f: Family, n: usize, seed: u64) -> Vec<f64> {
@@ -104,6 +107,16 @@ impl Check for C04 {
         let mut worst_fill = 0.0f64;
         for (i, &x) in xs.iter().enumerate() {
             d.insert(x);
+            let periodic = c.read_every > 0 && (i + 1) % c.read_every as usize == 0;
+            if periodic {
+                merges_before_end = true;
+                let _ = d.cdf(x);
+                let nc = d.n_centroids();
+                worst_fill = worst_fill.max(nc as f64 / (c.delta + 3.0));
+                if nc as f64 > c.delta + 3.0 {
+                    return fail("too-many-centroids", format!("{} centroids after {} inserts (read every {} inserts), allowed delta + 3 = {} [{}]", nc, i + 1, c.read_every, c.delta + 3.0, cfg));
+                }
+            }
             while ri < read_at.len() && read_at[ri] == i {
                 ri += 1;
                 merges_before_end = true;
@@ -182,6 +195,7 @@ impl Check for C04 {
             .class_if(!c.family.smooth(), "ties_or_cliffs")
             .class_if(judged, "accuracy_judged")
             .class_if(!c.reads.is_empty(), "interleaved_reads")
+            .class_if(c.read_every > 0, "periodic_reads")
             .class_if(n >= 100_000, "n>=1e5");
         if worst_q > 0.6 || worst_fill > 0.9 {
             info.detail = Some(detail);
@@ -217,13 +231,15 @@ fn strategy(tier: Tier) -> BoxedStrategy<Case> {
         2 => 1u32..3000,
         1 => 1u32..nmax,
     ];
-    (scale(), delta, backlog, n, fam, any::<u64>(), prop::collection::vec(any::<u16>(), 0..5), prop::collection::vec(0.0f64..=1.0, 0..8))
-        .prop_map(move |(scale, delta, backlog, n, family, seed, reads, qs)| {
-            // a merge costs ~ (delta + backlog) log; every (backlog+1)-th insert merges: cap the work
-            let per_merge = delta.min(n as f64) + backlog as f64 + 8.0;
-            let merges = n as f64 / (backlog as f64 + 1.0);
-            let n = if merges * per_merge > budget { ((budget / per_merge) * (backlog as f64 + 1.0)).max(1.0) as u32 } else { n };
-            Case { scale, delta, backlog, n: n.max(1), family, seed, reads, qs }
+    let read_every = prop_oneof![4 => Just(0u16), 1 => Just(1u16), 1 => 1u16..30, 1 => 1u16..2000];
+    (scale(), delta, backlog, n, fam, any::<u64>(), prop::collection::vec(any::<u16>(), 0..5), prop::collection::vec(0.0f64..=1.0, 0..8), read_every)
+        .prop_map(move |(scale, delta, backlog, n, family, seed, reads, qs, read_every)| {
+            // a merge costs ~ (delta + backlog) log; every (backlog+1)-th insert (or periodic read) merges: cap the work
+            let eff_backlog = if read_every > 0 { backlog.min(read_every as usize - 1) } else { backlog };
+            let per_merge = delta.min(n as f64) + eff_backlog as f64 + 8.0;
+            let merges = n as f64 / (eff_backlog as f64 + 1.0);
+            let n = if merges * per_merge > budget { ((budget / per_merge) * (eff_backlog as f64 + 1.0)).max(1.0) as u32 } else { n };
+            Case { scale, delta, backlog, n: n.max(1), family, seed, reads, qs, read_every }
         })
         .boxed()
 }
@@ -233,7 +249,7 @@ pub fn checks() -> Vec<Box<dyn DynCheck>> {
 }
 
 pub fn run(ctx: &Ctx) {
-    ctx.set_rule("generated: scale K0..K3 x delta in {1.1..1000} + random x max_backlog_size in {0,1,10,1000} + random x n in {1,3,10,...,1e5} + random (thorough up to 1e6; n capped so that merge work stays within budget) x data family (smooth: uniform, normal, exponential, sorted, reverse-sorted; ties/cliffs: lognormal sigma=3, 5-point discrete, half the mass tied + far block, two blocks 1e6 apart, constant) x interleaved reads at generated stream positions. Oracle: n_centroids() <= delta + 3 at every read and at the end; for q on a 201-point grid + generated q the rank interval of quantile(q) in the sorted data is within c*W + 2/n of q (c = 1 smooth, 3 ties/cliffs; K2/K3 judged for n >= delta); the same for cdf(x) at 51 data points + generated x. Non-trivial: n > delta and at least one merge before the end. Distinct = hash of the case. evaluations = digests + probes.");
+    ctx.set_rule("generated: scale K0..K3 x delta in {1.1..1000} + random x max_backlog_size in {0,1,10,1000} + random x n in {1,3,10,...,1e5} + random (thorough up to 1e6; n capped so that merge work stays within budget) x data family (smooth: uniform, normal, exponential, sorted, reverse-sorted; ties/cliffs: lognormal sigma=3, 5-point discrete, half the mass tied + far block, two blocks 1e6 apart, constant) x interleaved reads at generated stream positions and, in 40 % of the cases, a read after every r inserts (r from 1 to 2000). Oracle: n_centroids() <= delta + 3 at every read and at the end; for q on a 201-point grid + generated q the rank interval of quantile(q) in the sorted data is within c*W + 2/n of q (c = 1 smooth, 3 ties/cliffs; K2/K3 judged for n >= delta); the same for cdf(x) at 51 data points + generated x. Non-trivial: n > delta and at least one merge before the end. Distinct = hash of the case. evaluations = digests + probes.");
     ctx.assume("rank of quantile(q) judged against the closed interval [fraction < x - tol, fraction <= x + tol] with tol = 16 ulps of the data range x n");
     ctx.run_regressions(&[&C04]);
     let t = ctx.tier;
